@@ -297,3 +297,75 @@ Print Assumptions C13_generated_sr_request.
 Print Assumptions C13_generated_scale_inputs_is_model.
 Print Assumptions C13_generated_ring_line_is_model.
 Print Assumptions C13_generated_ring_line_reject.
+
+(* ================================================================================================================
+   The R-vs-Q instance gap, closed by proof (base/NumHom.v, proofs/QR_bridge_C13.v).
+   The kwargs / partial-application part of model/MatGen.v contains no number of the [Num] class: it has no instance gap.
+   The rescaling and structured-matrix theorems above are about F := R (or any F); the correspondence run (run/RunC13.v)
+   evaluates the SAME terms at F := Q.  [Q2R] is a homomorphism of the [Num] class (opposite and strict comparison included, so
+   the null-radius test -eps < rho < eps takes the same branch; division sr / rho included, x/0 = 0 on both sides), hence
+   scale_sr, the pre-fix formula, both input scalings, COO assembly with duplicate summation, ring, line and the
+   _random_degree entry lists commute with the entry-wise embedding ([qcoo2r]: the values of an entry list embedded, indices
+   untouched).  No shape hypothesis and no side condition. *)
+From RV Require Import base.NumHom proofs.QR_bridge_C13.
+
+Theorem C13_Qscaling_embed :
+  (forall (eps : Q) (W0 : list (list Q)) (rho sr : Q),
+     scale_sr (Q2R eps) (qm2r W0) (Q2R rho) (Q2R sr) = qm2r (scale_sr eps W0 rho sr) /\
+     scale_sr_prefix (Q2R eps) (qm2r W0) (Q2R rho) (Q2R sr) = qm2r (scale_sr_prefix eps W0 rho sr) /\
+     null_radius (Q2R eps) (Q2R rho) = null_radius eps rho) /\
+  (forall (s : Q) (W0 : list (list Q)), scale_inputs_scalar (Q2R s) (qm2r W0) = qm2r (scale_inputs_scalar s W0)) /\
+  (forall (s : list Q) (W0 : list (list Q)), scale_inputs_cols (qv2r s) (qm2r W0) = qm2r (scale_inputs_cols s W0)).
+Proof. exact Qscaling_embed. Qed.
+
+Theorem C13_Qstructured_embed :
+  (forall (n : nat) (w : list Q), ring n (qv2r w) = qm2r (ring n w) /\ line n (qv2r w) = qm2r (line n w)) /\
+  (forall (m n : nat) (es : coo (F:=Q)), coo_dense m n (qcoo2r es) = qm2r (coo_dense m n es)) /\
+  (forall (choice : nat -> list nat) (k d : nat) (vals : list Q),
+     degree_coo_out choice k d (qv2r vals) = qcoo2r (degree_coo_out choice k d vals) /\
+     degree_coo_in choice k d (qv2r vals) = qcoo2r (degree_coo_in choice k d vals)).
+Proof. exact Qstructured_embed. Qed.
+
+(* non-vacuity: a draw of estimated radius 3/2 rescaled to 9/10, a null-radius draw left as drawn, a duplicate COO entry summed *)
+Example C13_Qscaling_example :
+  scale_sr (Q2R (1 # 100000000)%Q) (qm2r [[(1#2)%Q; (-3#1)%Q]; [(1#4)%Q; (1#1)%Q]]) (Q2R (3#2)%Q) (Q2R (9#10)%Q)
+    = qm2r [[(3#10)%Q; (-9#5)%Q]; [(3#20)%Q; (3#5)%Q]] /\
+  scale_sr (Q2R (1 # 100000000)%Q) (qm2r [[0%Q; 1%Q]; [0%Q; 0%Q]]) (Q2R 0%Q) (Q2R (9#10)%Q) = qm2r [[0%Q; 1%Q]; [0%Q; 0%Q]] /\
+  coo_dense 2 2 (qcoo2r [((0, 1), (1#2)%Q); ((1, 0), (3#1)%Q); ((0, 1), (1#4)%Q)]) = qm2r [[0%Q; (3#4)%Q]; [(3#1)%Q; 0%Q]].
+Proof. exact Qscaling_example. Qed.
+
+Print Assumptions C13_Qscaling_embed.
+Print Assumptions C13_Qstructured_embed.
+
+(* ---- the verdict of the correspondence runner, read at R ----
+   [rclose m o] is |m - o| <= 1e-9 * max(1,|m|) on reals, [mrclose] entry-wise with the same shape.  mat_gen._epsilon is the
+   real number 1/100000000.  The index lists of chk_degree are compared exactly (they are naturals). *)
+From RV Require Import run.RunC13.
+
+Theorem C13_chk_matgen_is_about_R_model :
+  (forall W0 rho sr obs, chk_sr W0 rho sr obs = true ->
+     mrclose (scale_sr (1 / 100000000)%R (qm2r W0) (Q2R rho) (Q2R sr)) (qm2r obs)) /\
+  (forall W0 s obs, chk_is_scalar W0 s obs = true -> mrclose (scale_inputs_scalar (Q2R s) (qm2r W0)) (qm2r obs)) /\
+  (forall W0 s obs, chk_is_cols W0 s obs = true -> mrclose (scale_inputs_cols (qv2r s) (qm2r W0)) (qm2r obs)) /\
+  (forall n w obs, chk_ring n w obs = true -> mrclose (ring n (qv2r w)) (qm2r obs)) /\
+  (forall n w obs, chk_line n w obs = true -> mrclose (line n (qv2r w)) (qm2r obs)) /\
+  (forall out m n d choices vals obs_rows obs_cols obs, chk_degree out m n d choices vals obs_rows obs_cols obs = true ->
+     let ch := fun k => nth k choices [] in
+     let esR := if out then degree_coo_out (F:=R) ch n d (qv2r vals) else degree_coo_in (F:=R) ch m d (qv2r vals) in
+     forallb (choice_okb (if out then m else n) d) choices = true /\
+     (length choices =? (if out then n else m)) = true /\
+     lnat_eqb (map (fun e => fst (fst e)) esR) obs_rows = true /\
+     lnat_eqb (map (fun e => snd (fst e)) esR) obs_cols = true /\
+     mrclose (coo_dense m n esR) (qm2r obs)).
+Proof. exact chk_matgen_is_about_R_model. Qed.
+
+(* non-vacuity: scenarios on which the runner answers true *)
+Example C13_chk_matgen_example :
+  chk_sr [[(1#2)%Q; (-3#1)%Q]; [(1#4)%Q; (1#1)%Q]] (3#2)%Q (9#10)%Q [[(3#10)%Q; (-9#5)%Q]; [(3#20)%Q; (3#5)%Q]] = true /\
+  chk_is_cols [[(1#2)%Q; (-3#1)%Q]; [(1#4)%Q; (1#1)%Q]] [(2#1)%Q; (1#2)%Q] [[(1#1)%Q; (-3#2)%Q]; [(1#2)%Q; (1#2)%Q]] = true /\
+  chk_ring 3 [(1#2)%Q; (1#4)%Q; (1#8)%Q] [[0%Q; 0%Q; (1#8)%Q]; [(1#2)%Q; 0%Q; 0%Q]; [0%Q; (1#4)%Q; 0%Q]] = true /\
+  chk_degree true 3 2 2 [[0; 2]; [1; 0]] [(1#2)%Q; (1#4)%Q; (1#8)%Q; (1#1)%Q] [0; 2; 1; 0] [0; 0; 1; 1]
+             [[(1#2)%Q; (1#1)%Q]; [0%Q; (1#8)%Q]; [(1#4)%Q; 0%Q]] = true.
+Proof. vm_compute. repeat split; reflexivity. Qed.
+
+Print Assumptions C13_chk_matgen_is_about_R_model.
